@@ -134,7 +134,23 @@ SPELLINGS = {
     "ienull": ({"type": "integer", "enum": [1, 2, None]}, True), "a31": ({"type": ["array", "null"], "items": {"type": "integer"}}, True),
     "i30": ({"type": "integer", "nullable": True}, True), "d31": ({"type": ["string", "null"], "format": "date"}, True),
     "plain": ({"type": "string"}, False), "eplain": ({"type": "string", "enum": ["a", "b"]}, False), "iplain": ({"type": "integer"}, False),
+    # not about null, but about being built more than once: tuple arrays with and without `items`, nested unions
+    "tuple": ({"type": "array", "prefixItems": [{"type": "string"}, {"type": "integer"}]}, False),
+    "tupleitems": ({"type": "array", "prefixItems": [{"type": "string"}, {"type": "integer"}], "items": {"type": "boolean"}}, False),
+    "nestedunion": ({"oneOf": [{"oneOf": [{"type": "string"}, {"type": "integer"}]}, {"type": "array", "items": {"type": "number"}}]}, False),
 }
+
+
+def deep(prop) -> list:
+    """Structure of a built property with document-chosen names stripped: kind, members (with multiplicity), leaves' type strings."""
+    n = type(prop).__name__
+    if n == "UnionProperty":
+        return [n, [deep(x) for x in prop.inner_properties]]
+    if n == "ListProperty":
+        return [n, deep(prop.inner_property)]
+    if n in ("EnumProperty", "LiteralEnumProperty"):
+        return [n, sorted(map(str, prop.values.values() if isinstance(prop.values, dict) else prop.values))]
+    return [n, re.sub(r"Holder\d+P\d+", "X", prop.get_type_string(no_optional=True))]
 
 
 def shared_positions(rep) -> None:
@@ -157,7 +173,7 @@ def shared_positions(rep) -> None:
             ts = []
             for n in range(3):
                 prop, _ = property_from_data(name=f"p{n}", required=True, data=obj, schemas=Schemas(), parent_name=f"Holder{n}", config=cfg)
-                ts.append("ERR" if type(prop).__name__ == "PropertyError" else prop.get_type_string().replace(f"Holder{n}P{n}", "X"))
+                ts.append("ERR" if type(prop).__name__ == "PropertyError" else json.dumps([prop.get_type_string().replace(f"Holder{n}P{n}", "X"), deep(prop)]))
             rep.count(1, ("double-parse", k, literal))
             if len(set(ts)) != 1:
                 rep.violate(f"C10/shared/built-twice/{k}", f"building a property from the same schema object {json.dumps(sch)} three times gives {ts} (literal_enums={literal})", schema=sch)
